@@ -2,14 +2,13 @@
 # usage: tools/seedcheck.sh <seed-dir> <PROP-ID> [more PROP-IDs]
 # Confirms a seeded change independently (scratch worktree outside /repo and /verif):
 #   builds, keeps the pinned suite's result unchanged, its demonstration fails with and passes without the change;
-# then applies it to /repo, runs the quick check(s), and reverts /repo.
+# then runs the quick check(s) against that worktree (VERIF_REPO); /repo is not touched.
 set -u
 seed=$(realpath "$1"); shift
 export GOFLAGS=-mod=mod GOPROXY=off GOSUMDB=off GOTOOLCHAIN=local
-[ -z "$(git -C /repo status --porcelain)" ] || { echo "/repo not clean"; exit 2; }
 wt=/tmp/seedcheck.$$
 git -C /repo worktree add -q --detach "$wt" HEAD || exit 2
-trap 'git -C /repo worktree remove --force "$wt" >/dev/null 2>&1; git -C /repo checkout -q -- . ; git -C /repo clean -fdq' EXIT
+trap 'git -C /repo worktree remove --force "$wt" >/dev/null 2>&1' EXIT
 pkg=$(python3 -c "import json;print(json.load(open('$seed/meta.json'))['demo_package'])")
 tst=$(python3 -c "import json;print(json.load(open('$seed/meta.json'))['demo_test'])")
 cp "$seed/demo_test.go" "$wt/$pkg/zz_seeded_demo_test.go"
@@ -34,10 +33,12 @@ got=$(echo "$fails" | tr ' ' '\n' | grep -oE 'Test[A-Za-z0-9_]+' | sort | sed 's
 [ "$got" = "$exp" ] || { echo "SUITE RESULT CHANGED: $got"; ok=0; }
 echo "seed confirmed: $ok"
 [ "$ok" = 1 ] || exit 4
-git -C /repo apply "$seed/patch.diff" || exit 3
+# the checks run against the scratch worktree (VERIF_REPO), /repo is not touched
 cd /verif
+tag=sc$$
 for id in "$@"; do
-  out=$(./check "$id" quick 2>&1); rc=$?
+  out=$(VERIF_REPO="$wt" VERIF_TAG="$tag" ./check "$id" quick 2>&1); rc=$?
   echo "== ./check $id quick -> exit $rc"
   echo "$out" | grep -E "VIOLATION|^  [a-zA-Z]" | head -4 | cut -c1-300
 done
+rm -rf "/verif/replays/new-$tag" "/verif/.alt/$tag" /verif/.out/*-"$tag" /verif/.bin/*-"$tag".test
